@@ -575,11 +575,23 @@ class SymCtx:
         use nlsat on the real-arithmetic slice.  Sound w.r.t. the whole path condition as long as
         the rest of it (disjoint variables) is satisfiable, which the end-of-path check decides."""
         chosen, _ = self._cone([term])
+        t0 = time.time()
+        # cheap pre-check on the linear part only (a subset of the constraints: unsat is conclusive)
+        lin = [a for a in chosen if not _is_nonlinear(a)]
+        tconj = _conjuncts(z3.simplify(term))
+        if len(lin) < len(chosen) and lin and all(not _is_nonlinear(x) for x in tconj):
+            sl = z3.Solver()
+            sl.set("timeout", 2000)
+            sl.add(lin)
+            sl.add(term)
+            if sl.check() == z3.unsat:
+                self.queries += 1
+                self.solver_s += time.time() - t0
+                return z3.unsat
         sv = z3.Solver()
         sv.set("timeout", timeout_ms)
         sv.add(chosen)
         sv.add(term)
-        t0 = time.time()
         r = sv.check()
         self.queries += 1
         self.solver_s += time.time() - t0
@@ -773,6 +785,12 @@ class SymCtx:
         for arg, var in self._sqrts:
             if arg.eq(e):
                 return SymReal(var, True)
+        # sqrt resolution (DESIGN 3.2): sympy proposes g with e == g^2, z3 certifies the identity
+        g = self._resolve_sqrt(e)
+        if g is not None:
+            if self.branch(g >= 0):
+                return SymReal(g, True)
+            return SymReal(-g, True)
         # hash-consing modulo proved equality of the argument (DESIGN 3.2)
         for arg, var in self._sqrts:
             if self._check_sliced(arg != e, 1000) == z3.unsat:
@@ -785,6 +803,70 @@ class SymCtx:
         self._sqrts.append((e, var))
         self.nonlinear = True
         return SymReal(var, True)
+
+    def _resolve_sqrt(self, e):
+        if not _is_nonlinear(e):
+            return None
+        from . import simplify as S
+
+        key = e.sexpr()
+        if key in _SQRT_CACHE:
+            g = _SQRT_CACHE[key]  # sympy's (untrusted) proposal; certified below on every use
+        else:
+            g = S.propose_sqrt(e)
+            if g is not None:
+                g = z3.simplify(g)
+            if len(_SQRT_CACHE) > 5000:
+                _SQRT_CACHE.clear()
+            _SQRT_CACHE[key] = g
+        if g is None:
+            return None
+        sv = z3.Solver()
+        sv.set("timeout", 20000)
+        sv.add(e != g * g)
+        # denominators the code divided by are non-zero on this path: add the slice of the pc
+        sv.add(self._cone([e])[0])
+        t0 = time.time()
+        r = sv.check()
+        self.queries += 1
+        self.solver_s += time.time() - t0
+        return g if r == z3.unsat else None
+
+    def _identity(self, a, b) -> bool:
+        sv = z3.Solver()
+        sv.set("timeout", 20000)
+        sv.add(a != b)
+        return sv.check() == z3.unsat
+
+    def simp(self, x):
+        """Certified simplification of a symbolic real (sympy proposes, z3 proves equality under the pc)."""
+        if not isinstance(x, SymReal):
+            return x
+        from . import simplify as S
+
+        t = z3.simplify(x.t)
+        if S.term_size(t) < 12:
+            return x
+        key = "S:" + t.sexpr()
+        if key in _SQRT_CACHE:
+            c = _SQRT_CACHE[key]
+        else:
+            c = S.propose_simplified(t)
+            if c is not None:
+                c = z3.simplify(c)
+            _SQRT_CACHE[key] = c
+        if c is not None:
+            sv = z3.Solver()
+            sv.set("timeout", 30000)
+            sv.add(t != c)
+            sv.add(self._cone([t])[0])
+            t0 = time.time()
+            r = sv.check()
+            self.queries += 1
+            self.solver_s += time.time() - t0
+            if r != z3.unsat or S.term_size(c) >= S.term_size(t):
+                c = None
+        return SymReal(c, x.nn) if c is not None else x
 
     def trig(self, x: SymReal):
         e = z3.simplify(x.t)
@@ -925,6 +1007,7 @@ class SymCtx:
 
 
 _VARS_CACHE: dict = {}
+_SQRT_CACHE: dict = {}
 
 
 def _vars(t) -> frozenset:
@@ -1000,7 +1083,15 @@ def _val_to_py(val):
     if z3.is_int_value(val):
         return val.as_long()
     if z3.is_rational_value(val):
-        return f"{val.numerator_as_long()}/{val.denominator_as_long()}"
+        n, d = val.numerator_as_long(), val.denominator_as_long()
+        if len(str(n)) + len(str(d)) > 60:
+            # nlsat sometimes returns rationals with thousands of digits: keep 40 significant digits
+            import decimal
+
+            with decimal.localcontext() as dc:
+                dc.prec = 40
+                return str(decimal.Decimal(n) / decimal.Decimal(d))
+        return f"{n}/{d}"
     if z3.is_true(val):
         return True
     if z3.is_false(val):
